@@ -66,6 +66,10 @@ type loopStep struct {
 
 const loopDeadline = 12 * time.Second
 
+// loopMaxPauses bounds the number of failed attempts (3 s pauses of the real
+// handler) one case may spend; the rest of its script is dropped.
+var loopMaxPauses = 2
+
 var freshTime = time.Now().Truncate(time.Second)
 
 // ---------------------------------------------------------------------
@@ -301,9 +305,6 @@ func (h *handlerCtl) probe() string {
 		case strings.HasPrefix(reason, "sync.Cond.Wait") && strings.Contains(first, ".(*blockManager).cfHandler"):
 			return "idle"
 		case reason == "select" && strings.Contains(first, ".(*blockManager).cfHandler"):
-			if os.Getenv("C03_DEBUG") != "" {
-				fmt.Fprintf(os.Stderr, "SLEEP hits=%d\n%s\n", h.hits, string(body))
-			}
 			return "sleep"
 		case reason == "select" && strings.Contains(first, ".(*blockManager).getCheckpointedCFHeaders"):
 			return "fetchwait"
@@ -524,12 +525,15 @@ func (L *loopRun) Query(reqs []*query.Request, _ ...query.QueryOption) chan erro
 func (L *loopRun) waitQuiescent(hits0 int, wasSleep bool) string {
 	dl := time.Now().Add(loopDeadline)
 	for time.Now().Before(dl) {
+		// the number of calls is read BEFORE the stack is looked at: a
+		// pause seen after the handler was active in this round is a new one
+		n := L.h.nhits()
 		st := L.h.probe()
 		switch {
 		case st == "done" || strings.HasPrefix(st, "gate:") || st == "idle":
 			return st
 		case st == "sleep":
-			if !wasSleep || L.h.nhits() > hits0 {
+			if !wasSleep || n > hits0 {
 				return st
 			}
 		}
@@ -765,7 +769,14 @@ func runL(sp *spec) (res result) {
 			if cls == 1 {
 				nfruit++
 			}
-			kinds = append(kinds, fmt.Sprintf("%d", cls))
+			if nfruit >= loopMaxPauses {
+				// every failed attempt costs a 3 s pause of the real handler
+				kinds = append(kinds, fmt.Sprintf("%d", cls))
+				goto finish
+			}
+			if nfruit < loopMaxPauses || cls != 1 {
+				kinds = append(kinds, fmt.Sprintf("%d", cls))
+			}
 			if cls == 6 {
 				L.h.mu.Lock()
 				ferr := L.h.ferr
@@ -776,6 +787,7 @@ func runL(sp *spec) (res result) {
 			}
 		}
 	}
+finish:
 	ch0 := fx.big.upTo(sp.Tip)
 	var connIDs []int64
 	for _, id := range conn {
@@ -913,6 +925,7 @@ func mainLoop(a c.Args, replay *spec) {
 	n := 18
 	if a.Tier == "thorough" {
 		n = 400
+		loopMaxPauses = 5
 	}
 	var specs []*spec
 	if replay != nil {
